@@ -6,6 +6,9 @@ use crate::server::Router;
 use crate::server_request::route_request_view;
 use tokio::io::{AsyncWrite, AsyncWriteExt};
 use tokio::io::{BufReader, BufWriter};
+#[cfg(repe_verif)]
+use crate::verif_seam::tokio_net::{TcpListener, TcpStream, ToSocketAddrs};
+#[cfg(not(repe_verif))]
 use tokio::net::{TcpListener, TcpStream, ToSocketAddrs};
 use tokio::time::{Duration, timeout};
 
